@@ -164,23 +164,60 @@ pub fn job(job: &Value) -> Value {
         Err(e) => return json!({"error": e}),
     };
     let bn = if erase > 0 { parametrise(&big.bn, erase) } else { big.bn.clone() };
-    let g = match get_extended_symbolic_graph(&bn, 3) {
+    let names = Names::user(&big.var_names());
+    let texts = if name.starts_with("synthetic:") {
+        // one state (1111000..0) as a conjunction of literals over all variables
+        let all_ones = name.contains("gated");
+        let cube: Vec<String> = names.props.iter().enumerate().map(|(i, v)| if i < 4 || all_ones { v.clone() } else { format!("~{v}") }).collect();
+        let cube = cube.join(" & ");
+        vec![format!("EG ~({cube})"), format!("AF ({cube})"), format!("EF ({cube})"), format!("AG ~({cube})"), format!("(~({cube})) EW False")]
+    } else {
+        crate::props::c10::big_formula_texts(&names)
+    };
+    let text = &texts[job["formula_index"].as_u64().unwrap_or(0) as usize];
+    // exactly as many spare variable sets as the formula needs (on both sides)
+    let k = crate::refparser::parse_str(text, false).map(|t| t.qdepth()).unwrap_or(3) as u16;
+    let g = match get_extended_symbolic_graph(&bn, k) {
         Ok(g) => g,
         Err(e) => return json!({"error": e}),
     };
-    let names = Names::user(&big.var_names());
-    let texts = crate::props::c10::big_formula_texts(&names);
-    let text = &texts[job["formula_index"].as_u64().unwrap_or(0) as usize];
     let mut problems: Vec<String> = vec![];
     let param = match mc::model_check_formula_dirty(text, &g) {
         Ok(s) => s,
         Err(e) => return json!({"error": e}),
     };
-    let colours = colour_list(&g, stride, cap);
+    let colours = if name.starts_with("synthetic:") {
+        // fixed valuation patterns of the parameter variables (all false, all true, alternating, every third):
+        // the first colours of the library's enumeration are all near the all-false corner
+        let ctx = g.symbolic_context();
+        let pv = ctx.parameter_variables().clone();
+        let mut out: Vec<GraphColors> = vec![];
+        for pat in 0..cap {
+            let mut val = biodivine_lib_bdd::BddPartialValuation::empty();
+            for (i, v) in pv.iter().enumerate() {
+                val.set_value(
+                    *v,
+                    match pat {
+                        0 => false,
+                        1 => true,
+                        2 => i % 2 == 0,
+                        _ => i % 3 == 0,
+                    },
+                );
+            }
+            let c = GraphColors::new(ctx.bdd_variable_set().mk_conjunctive_clause(&val), ctx).intersect(g.unit_colors());
+            if !c.is_empty() && !out.contains(&c) {
+                out.push(c);
+            }
+        }
+        out
+    } else {
+        colour_list(&g, stride, cap)
+    };
     let total_colours = g.unit_colors().approx_cardinality();
     for c in &colours {
         let w = g.pick_witness(c);
-        let gw = match get_extended_symbolic_graph(&w, 3) {
+        let gw = match get_extended_symbolic_graph(&w, k) {
             Ok(g) => g,
             Err(e) => {
                 problems.push(format!("witness graph: {e}"));
@@ -195,10 +232,24 @@ pub fn job(job: &Value) -> Value {
             }
         };
         let slice = param.intersect_colors(c);
-        if sorted_states(&slice) != sorted_states(&rw) && problems.len() < 4 {
+        // symbolic comparison of the two vertex sets (variables matched by name), no materialisation
+        let a = slice.vertices();
+        let b = g.symbolic_context().transfer_from(rw.vertices().as_bdd(), gw.symbolic_context());
+        let same = match &b {
+            Some(b) => a.as_bdd() == b,
+            None => false,
+        };
+        if std::env::var("VERIF_DEBUG").is_ok() {
+            let vs = g.symbolic_context().bdd_variable_set();
+            let sat = c.as_bdd().first_valuation().map(|v| g.symbolic_context().parameter_variables().iter().map(|p| if v.value(*p) { '1' } else { '0' }).collect::<String>());
+            eprintln!("colour valuation {:?} (param vars: {:?})", sat, g.symbolic_context().parameter_variables().iter().map(|p| vs.name_of(*p)).collect::<Vec<_>>());
+            eprintln!("colour card {} param-slice states {} witness states {} transfer {} same {}", c.approx_cardinality(), a.approx_cardinality(), rw.vertices().approx_cardinality(), b.is_some(), same);
+        }
+        if !same && problems.len() < 4 {
             problems.push(format!(
-                "model {name} (erase {erase}), formula {text}: for one colour the parametrised result has {} states, the instantiated network {} states",
-                slice.vertices().approx_cardinality(),
+                "model {name} (erase {erase}), formula {}: for one colour the parametrised result has {} states, the instantiated network {} states",
+                crate::report::truncate(text, 80),
+                a.approx_cardinality(),
                 rw.vertices().approx_cardinality()
             ));
         }
@@ -277,6 +328,11 @@ pub fn run(tier: &str) -> Result<Report, String> {
             jobs.push(json!({"kind": "c20big", "model": "inference-benchmarks/110_9v/model_parametrized.aeon", "erase": 0, "formula_index": fi, "stride": 64, "cap": 1000}));
         }
     }
+    // a model with more than 2^53 (state, colour) pairs but fewer states per colour: four colours of
+    // the library's enumeration (every 16384th) x five formulae over a single-state argument
+    for fi in 0..(if tier == "quick" { 2 } else { 5 }) {
+        jobs.push(json!({"kind": "c20big", "model": "synthetic:gated44", "erase": 0, "formula_index": fi, "stride": 1, "cap": 4}));
+    }
     let results: Vec<(Value, crate::jobs::JobResult)> = jobs.par_iter().map(|j| (j.clone(), crate::jobs::run(j, limit))).collect();
     let mut bm = vec![];
     let mut big_total = 0;
@@ -307,6 +363,6 @@ pub fn run(tier: &str) -> Result<Report, String> {
     rep.evaluations += big_total;
     rep.distinct_nontrivial += big_total;
     rep.sample(json!({"network": "unc2", "formula": "(!{x}: (AG (EF {x})))", "check": "for each of the 4 valid colours: states of the parametrised result at that colour == model_check_formula on pick_witness(colour) == explicit-state oracle"}));
-    rep.rule = format!("every core network with more than one valid colour (and a sample of the all-2-variable family: one network per colour-count bucket, thorough six, <= 64 colours, formulae <= 3 nodes) x every closed plain formula with <= {m} nodes (quick: 4 on imp1 and con2) and every plain template formula x EVERY valid colour: the state set of the sanitised parametrised result at that colour must equal model_check_formula on the graph of SymbolicAsyncGraph::pick_witness(colour) (and the oracle evaluates every colour in isolation by construction). Bundled models: myeloid with the update functions of its first 2 (thorough: also 4) small-arity variables erased, all colours; thorough adds cell_division and 110_9v on a declared sub-lattice of colours (every 64th). distinct_nontrivial = number of (formula, colour) pairs compared");
+    rep.rule = format!("every core network with more than one valid colour (and a sample of the all-2-variable family: one network per colour-count bucket, thorough six, <= 64 colours, formulae <= 3 nodes) x every closed plain formula with <= {m} nodes (quick: 4 on imp1 and con2) and every plain template formula x EVERY valid colour: the state set of the sanitised parametrised result at that colour must equal model_check_formula on the graph of SymbolicAsyncGraph::pick_witness(colour) (and the oracle evaluates every colour in isolation by construction). Bundled models: myeloid with the update functions of its first 2 (thorough: also 4) small-arity variables erased, all colours; thorough adds cell_division and 110_9v on a declared sub-lattice of colours (every 64th); both tiers: a synthetic 44-variable network with 16 384 colours (2^58 state-colour pairs, beyond exact double arithmetic; a rising chain that only moves in the colour where all 14 parameters are true), four fixed colours x EG/AF/EF/AG/EW over a single-state argument. distinct_nontrivial = number of (formula, colour) pairs compared");
     Ok(rep)
 }
